@@ -1,4 +1,5 @@
 import CircusProofs.Core.PidInv
+import CircusProofs.Core.HookFrame
 /-!
 `EvInv`: what the published `reap` and `spawn` events say about pids (C09).
 
@@ -475,12 +476,22 @@ theorem ev_reapTail (pid u : Nat) (st : Option Nat) : PresTo (EvR pid) EvInv (re
             | some c => toString c
             | none => "None")
         objStop pid
+        let _ ← callHook u "after_reap"
+        Pure.pure ()
       | some (some s) => do
         let ps ← procStatus pid
         if isDead ps = true then do
             let __r ← objStop pid
             notify u "reap" (some pid) (toString (exitCodeOf s))
-          else notify u "reap" (some pid) (toString (exitCodeOf s))) := by
+            let _ ← callHook u "after_reap"
+            Pure.pure ()
+          else do
+            notify u "reap" (some pid) (toString (exitCodeOf s))
+            let _ ← callHook u "after_reap"
+            Pure.pure ()) := by
+    -- after the `reap` event the invariant is back, and the `after_reap` hook keeps it
+    have hh : ∀ _a : Unit, Pres EvInv (do let _ ← callHook u "after_reap"; Pure.pure () : M Unit) :=
+      fun _ => Pres.bind (callHook_presE L0 u _) (fun _ => Pres.pure _)
     intro stt
     split
     · exact PresTo.pure (fun _ h => h.inv) _
@@ -488,14 +499,14 @@ theorem ev_reapTail (pid u : Nat) (st : Option Nat) : PresTo (EvR pid) EvInv (re
       intro o
       refine PresTo.bind_right (hn _) ?_
       intro _
-      exact objStop_presE L0 pid
+      exact Pres.bind (objStop_presE L0 pid) hh
     · refine PresTo.bind_left (procStatus_presE L pid) ?_
       intro ps
       split
       · refine PresTo.bind_left (objStop_presE L pid) ?_
         intro _
-        exact hn _
-      · exact hn _
+        exact PresTo.bind_right (hn _) hh
+      · exact PresTo.bind_right (hn _) hh
   unfold reapTail
   split
   · refine PresTo.bind_left (Pres.pure _) ?_
@@ -514,17 +525,24 @@ theorem getW_mem_of_listed {u : Nat} {s : State} {p : Nat} (hp : p ∈ (getW u s
     simp only [Option.getD_some]
     exact ⟨List.mem_of_find?_eq_some hfind, by simpa using List.find?_some hfind⟩
 
-/-- **`reap_process` as a whole**: nothing for a pid the watcher does not list; otherwise the pop
-    first — after which nobody lists the pid — and then at most one `reap` event for it -/
+/-- **`reap_process` as a whole**: nothing for a pid the watcher does not list; otherwise the
+    `before_reap` hook (which publishes its own event only and leaves the pid listed), then the pop —
+    after which nobody lists the pid — then at most one `reap` event for it, then the `after_reap` hook -/
 theorem ev_reapProcess (u pid : Nat) (st : Option Nat) : Pres EvInv (reapProcess u pid st) := by
-  intro s hs
+  intro s0 hs0
   unfold reapProcess
   simp only [bind]
-  by_cases hc : (!(getW u s).fst.pids.contains pid) = true
-  · erw [if_pos hc]; exact hs
+  by_cases hc : (!(getW u s0).fst.pids.contains pid) = true
+  · erw [if_pos hc]; exact hs0
   · erw [if_neg hc]
-    have hmem : pid ∈ (getW u s).1.pids := by
+    have hmem0 : pid ∈ (getW u s0).1.pids := by
       simpa using hc
+    -- the state after the `before_reap` hook
+    have hs : EvInv (callHook u "before_reap" s0).2 := callHook_presE evLeafWE0 u _ s0 hs0
+    have hmem : pid ∈ (getW u (callHook u "before_reap" s0).2).1.pids := by
+      rw [getW_callHook_pids]; exact hmem0
+    show EvInv (reapTail u pid st (popPid u pid (callHook u "before_reap" s0).2).2).2
+    generalize (callHook u "before_reap" s0).2 = s at hs hmem ⊢
     obtain ⟨hW, hWu⟩ := getW_mem_of_listed hmem
     refine ev_reapTail pid u st (popPid u pid s).2 ⟨evLeafWE0.popPid u pid s hs, ?_, ?_, ?_⟩
     · exact hs.pid.listedLt _ hW pid hmem
